@@ -177,6 +177,7 @@ def obligations(tier: str):
         cfg.setdefault("fuel", 200)
         obs.append(Ob(h, cfg, name=name, timeout=timeout * (8 if T else 1), path_timeout=60))
 
+    add("crossover", "tree_crossover_f11_concrete_start", fixture="f11", rep="tree", decider="grow", max_depth=3, timeout=200)
     add("crossover", "tree_crossover_f1_d1", fixture="f1", rep="tree", decider="grow", max_depth=1, timeout=60)
     for fxn in ("f0",) + (("f1", "f3", "f2") if T else ()):
         add("crossover", f"tree_crossover_{fxn}", fixture=fxn, rep="tree", decider="grow", max_depth=2, timeout=60)
